@@ -112,7 +112,30 @@ def gen(rng, tier, i):
     else:
         lh = sc.add_http_listener("l")
     tagn = 0
+    # a client that leaves while its (talkative) destination keeps answering: datagrams for a session that has just ended
+    # keep arriving on every hop. They are nobody's business any more - and no other session's problem either
+    leaver = entry != "reverseudp" and rng.random() < 0.3
+    leave_ms = rng.choice([30, 100, 250, 500])
+    if leaver:
+        cip_l = sc.client_ip()
+        chat_ip, chat_port = sc.origin_ip(), sc.port()
+        sc.actors.append({"essential": True, "kind": "udp", "id": "chatty", "bind": "%s:%d" % (chat_ip, chat_port), "echo": True, "ops": [],
+                          "late_ms": list(range(0, leave_ms + 400, rng.choice([2, 5, 11]))), "late_hex": b"<LATE-from-chatty>".hex()})
+        hello = b"<LEAVER-hello>"
+        if entry == "socks5udp":
+            ctrl = [send(rc.socks5_greeting([0]) + rc.socks5_request(3, "0.0.0.0", 0)), op("recv_n", n=2, label="method"), op("recv_socks5_reply", label="reply"),
+                    op("set", flag="assocL"), op("sleep", ms=leave_ms), op("close")]
+            sc.actors.append({"kind": "tcp_client", "id": "ctlL", "src": cip_l, "dst": ls["addr"], "start_ms": 100, "ops": ctrl})
+            sc.actors.append({"kind": "udp", "id": "uL", "bind": "%s:6999" % cip_l, "start_ms": 100,
+                              "ops": [op("wait", flag="assocL", timeout_ms=5000), op("send", to="socks5reply:ctlL", hex=rc.socks5_udp_wrap(chat_ip, chat_port, hello).hex()), op("sleep", ms=leave_ms + 1000)]})
+        else:
+            tgtL = "%s:%d" % (chat_ip, chat_port)
+            sc.actors.append({"kind": "tcp_client", "id": "hL", "src": cip_l, "dst": lh["addr"], "start_ms": 100,
+                              "ops": [send(rc.http_connect(tgtL, [("Host", tgtL), ("Proxy-Protocol", "udp")])), op("recv_http_head", label="reply"),
+                                      send(rc.rpfm_frame(0, chat_ip, chat_port, hello)), op("sleep", ms=leave_ms), op(rng.choice(["close", "shutdown", "reset"])), op("sleep", ms=100)]})
     for s in range(nsess):
+        if leaver and s == nsess - 1:
+            t0 = max(t0, 100 + leave_ms + rng.choice([50, 300, 700]))     # (at least) one session after the leaver has left
         cip = cips[s % nclients]
         cport = 7000 + s
         ndg = rng.randint(1, 5)
@@ -214,7 +237,7 @@ def gen(rng, tier, i):
     if inject:
         sc.faults.append({"at_ms": 100 + rng.choice([50, 400]), "kind": "udp_error", "port": 0, "errno": 111})
     sc.meta = {"cls": "%s/%s" % (entry, middle), "cfgkey": "%s/%s/s%d/c%d/%s" % (entry, middle, nsess, nclients, "inj" if inject else "-"), "entry": entry, "middle": middle,
-               "sessions": sessions, "origins": [{k: v for k, v in o.items()} for o in origins], "inject": inject, "keep_ops": True}
+               "sessions": sessions, "origins": [{k: v for k, v in o.items()} for o in origins], "inject": inject, "keep_ops": True, "leaver": leaver}
     sc.max_ms = 30000
     return sc.plan(want_events=False)
 
@@ -361,5 +384,5 @@ def oracle(plan, out):
 def probes(plan, out):
     meta = plan["meta"]
     big = any(d["len"] > 1200 for s in meta["sessions"] for d in s["dgs"])
-    return {"nontrivial": len(meta["sessions"]) >= 2 or big, "sessions": len(meta["sessions"]), "big_payload": big, "error_injected": meta["inject"],
+    return {"nontrivial": len(meta["sessions"]) >= 2 or big, "sessions": len(meta["sessions"]), "big_payload": big, "error_injected": meta["inject"], "leaver": bool(meta.get("leaver")),
             "quic_datagram_channel": meta["middle"] == "quic-dgram", "multi_destination": any(len(set(d["origin"] for d in s["dgs"])) > 1 for s in meta["sessions"])}
